@@ -26,8 +26,14 @@ void harness(void) {
     int64_t sid[NMAX], utc[NMAX];
     SYM_I64(s0);
     SYM_I64(u0);
+#ifdef WITH_TICK
+    /* tick accuracy is claimed for anchors of any magnitude (deltas stay small): sample ids and times up to 2^62 */
+    ASSUME(s0 > -((int64_t) 1 << 62) && s0 < ((int64_t) 1 << 62));
+    ASSUME(u0 > -((int64_t) 1 << 62) && u0 < ((int64_t) 1 << 62));
+#else
     ASSUME(s0 > -((int64_t) 1 << 40) && s0 < ((int64_t) 1 << 40));
     ASSUME(u0 > -((int64_t) 1 << 61) && u0 < ((int64_t) 1 << 61));
+#endif
     for (unsigned i = 0; i < NMAX; ++i) {
         SYM_U32(ds);
         SYM_U32(dt);
@@ -60,6 +66,26 @@ void harness(void) {
         ASSUME((int64_t) off <= sid[w + 1] - sid[w]);
         rc = jls_tmap_sample_id_to_timestamp(m, sid[w] + off, &t);
         CHECK(rc == 0 && t >= utc[w] && t <= utc[w + 1], "interpolated time stays inside its segment");
+    }
+#endif
+#ifdef WITH_TICK
+    /* "interpolates linearly ... to within one time tick of the exact value, and converting that time back returns the
+     * original sample id to within one sample".  Exact oracle in integers (all factors < 2^VBITS, no overflow):
+     *   |ds * (t - utc[w]) - off * dt| <= ds      and      |dt * (s - sid[w]) - toff * ds| <= dt                     */
+    if (n >= 2 && w + 1 < n) {
+        int64_t ds_ = sid[w + 1] - sid[w], dt_ = utc[w + 1] - utc[w];
+        SYM_U32(off);
+        ASSUME((int64_t) off <= ds_);
+        rc = jls_tmap_sample_id_to_timestamp(m, sid[w] + off, &t);
+        int64_t e1 = ds_ * (t - utc[w]) - (int64_t) off * dt_;
+        CHECK(rc == 0 && e1 <= ds_ && e1 >= -ds_, "interpolated time is within one tick of the exact linear value (anchors of any magnitude)");
+        if (dt_ > 0) {
+            SYM_U32(toff);
+            ASSUME((int64_t) toff <= dt_);
+            rc = jls_tmap_timestamp_to_sample_id(m, utc[w] + toff, &s);
+            int64_t e2 = dt_ * (s - sid[w]) - (int64_t) toff * ds_;
+            CHECK(rc == 0 && e2 <= dt_ && e2 >= -dt_, "interpolated sample id is within one sample of the exact linear value (anchors of any magnitude)");
+        }
     }
 #endif
 #ifdef WITH_EXTRAP
